@@ -174,8 +174,9 @@ def dense_value(rng, ir, t, depth=3):
     if 'enum' in t:
         return rng.choice(t['enum'])
     if 'ref' in t:
-        if depth <= 0 and t.get('min_occurs', 0) == 0:
-            return None
+        req_attr = any('attr' in ft and ft['attr'].get('min_occurs', 0) >= 1 for _, ft in gen.all_fields(ir, t['ref']))
+        if depth <= 0 and t.get('min_occurs', 0) == 0 and not req_attr:
+            return None          # (a type with required attributes has no valid null spelling under XSD: never null)
         out = {'__class__': t['ref']}
         seen_groups = set()
         for fn, ft in gen.all_fields(ir, t['ref']):
@@ -185,6 +186,8 @@ def dense_value(rng, ir, t, depth=3):
                 seen_groups.add(ft['choice'])
             if depth <= 0 and not ('prim' in ft or 'enum' in ft or 'attr' in ft or 'xmldata' in ft) and ft.get('min_occurs', 0) == 0:
                 continue
+            if depth < -3:
+                continue          # (recursion guard for types that require themselves through required attributes)
             x = dense_value(rng, ir, ft, depth - 1)
             if x is not None:
                 out[fn] = x
